@@ -367,18 +367,7 @@ func driveC05(c *Ctx) {
 		meta["A_transitions_replayed"] = checked
 		meta["A_steps"] = steps
 		meta["A_mismatches"] = len(mism)
-		sort.Slice(mism, func(i, j int) bool {
-			if len(mism[i].Key) != len(mism[j].Key) {
-				return len(mism[i].Key) < len(mism[j].Key)
-			}
-			return mism[i].Key < mism[j].Key
-		})
-		if len(mism) > 25 {
-			mism = mism[:25]
-		}
-		if mism == nil {
-			mism = []Mismatch{}
-		}
+		mism = capMismatches(mism, 25)
 		tr.WriteJSON(c.Out+"/replayA.json", mism)
 	}
 	nh, ln, maxN := 150, 40, 7
@@ -413,4 +402,13 @@ func driveC05(c *Ctx) {
 	meta["segments"] = set.Segs
 	meta["events"] = set.Close()
 	tr.WriteJSON(c.Out+"/meta.json", meta)
+}
+
+func sortMismatches(mism []Mismatch) {
+	sort.Slice(mism, func(i, j int) bool {
+		if len(mism[i].Key) != len(mism[j].Key) {
+			return len(mism[i].Key) < len(mism[j].Key)
+		}
+		return mism[i].Key < mism[j].Key
+	})
 }
